@@ -37,6 +37,9 @@ CHECKS = {
  "C11": dict(cat="model_checking",
    text="rc2 (real optimizer.py on a stand-in returning ANY optimal model, hence every correct SAT engine) and z3 back-ends of System W and lex_inf run on the same symbolic base/query in one path and must agree, both modes; c-inference is run twice with independent optimal-model choices and must agree; all engine-name suffixes are pushed through the real suffix handling. Bounds N=2,M<=2(3) at L1, N=3,M=3(4) at L2.",
    ref="3 C11", tech="symbolic execution of a product program (two back-ends, one symbolic input); solver stand-in with unconstrained optimal-model choice covers all SAT engines"),
+ "C12": dict(cat="model_checking",
+   text="Product programs: the same symbolic base is presented twice to the same operator - standard keys 1..M vs 0-based / sparse / descending / shuffled keys, permuted list orders, and table-preserving re-spellings of one position ((A,Top), (B;Bottom), !!A, (B,B)) - and both presentations must give the same answer (and no exception); 7 operator/back-end classes x both modes, N=2,M=2 (thorough N=3,M=3, all M! orders). Found and fixed three key-0 / positional-key defects.",
+   ref="3 C12", tech="symbolic execution of a product program (two presentations of one symbolic base) over the real code; assertion over concrete per-path answers"),
 }
 NA = {
  "C10": "ANTLR-generated parser interpreted by the antlr4 runtime: symbolic inputs are concretised at the first DFA lookup, CrossHair gave an unsound 'Confirmed' (DFA-cache nondeterminism) and no verdict in 8 min for |s|<=3; an SMT model of ALL(*) would be a model of the runtime, not the real code (DESIGN.md 3 C10)",
